@@ -17,6 +17,86 @@ Proof. intros H. rewrite inb_app by auto. cbn [inb]. now rewrite andb_true_r. Qe
 Lemma size_snoc s B : size (s ++ [B]) = size s * B.
 Proof. rewrite size_app. cbn. lia. Qed.
 
+Lemma sub2ind_2 a b x c : sub2ind [a; b] [x; c] = x + a * c.
+Proof. cbn. lia. Qed.
+
+Lemma skipn_nth_cons {A} (d : A) : forall (l : list A) a, a < length l -> skipn a l = nth a l d :: skipn (S a) l.
+Proof.
+  induction l as [|x l IH]; intros [|a] H; cbn in *; try lia; auto.
+  rewrite IH by lia. reflexivity.
+Qed.
+
+Lemma pick_seq_skip {A} (d : A) (l : list A) : forall k a, a + k <= length l ->
+  pick d (seq a k) l = firstn k (skipn a l).
+Proof.
+  induction k as [|k IH]; intros a H; [reflexivity|].
+  cbn [seq]. unfold pick in *. cbn [map]. rewrite IH by lia.
+  rewrite (skipn_nth_cons d l a) by lia. reflexivity.
+Qed.
+
+Lemma pick_ttm_order {A} (d : A) (l : list A) n : n < length l ->
+  pick d (ttm_order (length l) n) l = nth n l d :: remove_at n l.
+Proof.
+  intros H. unfold ttm_order, remove_at. unfold pick. cbn [map]. f_equal. rewrite map_app.
+  fold (pick d (seq 0 n) l). fold (pick d (seq (S n) (length l - S n)) l).
+  rewrite !pick_seq_skip by lia. change (skipn 0 l) with l. f_equal.
+  apply firstn_all2. rewrite skipn_length. lia.
+Qed.
+
+Lemma ttm_order_perm N n : n < N -> is_perm (ttm_order N n) N.
+Proof.
+  intros H. unfold is_perm, ttm_order.
+  replace N with (n + S (N - S n)) at 2 by lia. rewrite seq_app. cbn [seq Nat.add].
+  apply Permutation_middle.
+Qed.
+
+Lemma remove_at_cons {A} n (x : A) l : remove_at (S n) (x :: l) = x :: remove_at n l.
+Proof. reflexivity. Qed.
+
+Lemma remove_at_length {A} n (l : list A) : n < length l -> S (length (remove_at n l)) = length l.
+Proof. intros H. unfold remove_at. rewrite app_length, firstn_length, skipn_length. lia. Qed.
+
+Lemma inb_split s : forall n i, n < length s -> length i = length s ->
+  inb s i = (nth n i 0 <? nth n s 0) && inb (remove_at n s) (remove_at n i).
+Proof.
+  induction s as [|d s IH]; intros n [|x i] Hn HL; cbn [length] in *; try lia.
+  destruct n as [|n].
+  - reflexivity.
+  - rewrite !remove_at_cons. cbn [inb nth]. rewrite (IH n i) by lia.
+    destruct (x <? d), (nth n i 0 <? nth n s 0); reflexivity.
+Qed.
+
+Lemma nth_upd_same {A} (l : list A) n v d : n < length l -> nth n (upd l n v) d = v.
+Proof. intros H. rewrite nth_upd by auto. now rewrite Nat.eqb_refl. Qed.
+
+Lemma remove_at_upd {A} (l : list A) : forall n v, remove_at n (upd l n v) = remove_at n l.
+Proof.
+  induction l as [|x l IH]; intros [|n] v; try reflexivity.
+  cbn [upd]. rewrite !remove_at_cons. now rewrite IH.
+Qed.
+
+Lemma size_split s n : n < length s -> size s = nth n s 0 * size (remove_at n s).
+Proof.
+  revert n; induction s as [|d s IH]; intros [|n] H; cbn [length] in *; try lia.
+  - reflexivity.
+  - rewrite remove_at_cons. cbn [nth]. rewrite !size_cons, (IH n) by lia. lia.
+Qed.
+
+Lemma nth_flat_map_uniform {A B} (f : A -> list B) (I : nat) (dp : A) (d : B) : forall (P : list A) b a,
+  (forall p, length (f p) = I) -> a < I -> b < length P ->
+  nth (a + I * b) (flat_map f P) d = nth a (f (nth b P dp)) d.
+Proof.
+  induction P as [|p P IH]; intros b a Hf Ha Hb; cbn [length] in Hb; [lia|].
+  cbn [flat_map]. destruct b as [|b].
+  - rewrite Nat.mul_0_r, Nat.add_0_r. rewrite app_nth1 by (rewrite Hf; exact Ha). reflexivity.
+  - rewrite app_nth2 by (rewrite Hf; nia). rewrite Hf.
+    replace (a + I * S b - I) with (a + I * b) by nia. cbn [nth]. apply IH; auto. lia.
+Qed.
+
+Lemma flat_map_length_uniform {A B} (f : A -> list B) (I : nat) (P : list A) :
+  (forall p, length (f p) = I) -> length (flat_map f P) = I * length P.
+Proof. intros Hf. induction P as [|p P IH]; cbn [flat_map length]; [lia|]. rewrite app_length, Hf, IH. lia. Qed.
+
 Section P.
 Variable V : Type.
 Variables (v0 v1 : V) (vadd vmul vsub : V -> V -> V) (vopp : V -> V).
@@ -177,6 +257,235 @@ Proof.
   change (map (fun k => den X (pick 0 (invperm p) (ind2sub (pick 0 p (dshape X)) k))) (seq 0 (size (pick 0 p (dshape X)))))
     with (ddata (tabulate (pick 0 p (dshape X)) (fun i => den X (pick 0 (invperm p) i)))).
   rewrite nth_tabulate by (now apply sub2ind_lt). rewrite ind2sub_sub2ind by auto. reflexivity.
+Qed.
+
+(* ---------------------------------------------------------------- inner product / squared norm *)
+
+Lemma dotv_sum : forall (x y : list V), length x = length y ->
+  dotv v0 vadd vmul x y = Sn (length x) (fun k => nth k x v0 * nth k y v0).
+Proof.
+  induction x as [|a x IH]; intros [|b y] H; cbn in H; try discriminate; [reflexivity|].
+  cbn [dotv length]. rewrite IH by lia. unfold sum_n. cbn [seq]. rewrite sum_over_cons. cbn [nth]. f_equal.
+  rewrite <- seq_shift, sum_over_map. reflexivity.
+Qed.
+
+Theorem impl_innerprod_dense_correct (X Y : dense V) : wf_dense X -> wf_dense Y -> dshape X = dshape Y ->
+  impl_innerprod_dense v0 vadd vmul X Y = spec_innerprod v0 vadd vmul (den X) (den Y) (dshape X).
+Proof.
+  intros WX WY Hs. unfold impl_innerprod_dense, spec_innerprod, allsubs. unfold wf_dense in *.
+  rewrite dotv_sum by congruence. rewrite sum_over_map, WX. apply sum_n_ext. intros k Hk.
+  rewrite (den_dense_ind2sub v0 X k Hk). rewrite Hs in *. now rewrite (den_dense_ind2sub v0 Y k Hk).
+Qed.
+
+Theorem impl_normsq_dense_correct (X : dense V) : wf_dense X ->
+  impl_normsq_dense v0 vadd vmul X = spec_normsq v0 vadd vmul (den X) (dshape X).
+Proof. intros W. now apply impl_innerprod_dense_correct. Qed.
+
+(* ---------------------------------------------------------------- tensor.ttm (single mode) *)
+
+Lemma den_matmul a b x c : x < nth 0 (dshape a) 0 -> c < nth 1 (dshape b) 0 ->
+  den (matmul v0 vadd vmul a b) [x; c] = Sn (nth 1 (dshape a) 0) (fun l => den a [x; l] * den b [l; c]).
+Proof.
+  intros Hx Hc. unfold matmul. rewrite den_tabulate; [reflexivity|].
+  cbn [inb]. apply Nat.ltb_lt in Hx, Hc. now rewrite Hx, Hc.
+Qed.
+
+Lemma den_of_matrix U m n x c : x < m -> c < n -> den (of_matrix v0 U m n) [x; c] = mget v0 U x c.
+Proof.
+  intros Hx Hc. unfold of_matrix. rewrite den_tabulate; [reflexivity|].
+  cbn [inb]. apply Nat.ltb_lt in Hx, Hc. now rewrite Hx, Hc.
+Qed.
+
+Lemma den_of_matrixT U m n x c : x < n -> c < m -> den (of_matrixT v0 U m n) [x; c] = mget v0 U c x.
+Proof.
+  intros Hx Hc. unfold of_matrixT. rewrite den_tabulate; [reflexivity|].
+  cbn [inb]. apply Nat.ltb_lt in Hx, Hc. now rewrite Hx, Hc.
+Qed.
+
+Theorem impl_ttm_dense_correct (X : dense V) n U J tr :
+  wf_dense X -> n < length (dshape X) ->
+  let Y := impl_ttm_dense v0 vadd vmul X n U J tr in
+  dshape Y = upd (dshape X) n J /\ wf_dense Y /\
+  forall i, inb (upd (dshape X) n J) i = true ->
+    den Y i = spec_ttm v0 vadd vmul (den X) (dshape X) n U tr i.
+Proof.
+  intros W Hn. unfold impl_ttm_dense.
+  set (s := dshape X). set (N := length s). set (order := ttm_order N n).
+  set (In := nth n s 0). set (rest := remove_at n s). set (sd := size rest).
+  assert (Hp : is_perm order N) by (now apply ttm_order_perm).
+  assert (HLs' : length (upd s n J) = N) by (now rewrite upd_length).
+  assert (Hsh : J :: rest = pick 0 order (upd s n J)).
+  { unfold order. rewrite <- HLs'. rewrite pick_ttm_order by (rewrite HLs'; exact Hn).
+    rewrite nth_upd_same by exact Hn. unfold rest. now rewrite remove_at_upd. }
+  assert (Hps : pick 0 order s = In :: rest).
+  { unfold order, N. now rewrite pick_ttm_order. }
+  set (newdata := np_transpose v0 X order).
+  set (m2 := np_reshapeF v0 newdata [In; sd]).
+  set (Um := if tr then of_matrixT v0 U In J else of_matrix v0 U J In).
+  set (prod := matmul v0 vadd vmul Um m2).
+  set (Yr := np_reshapeF v0 prod (J :: rest)).
+  assert (Hshape : dshape (np_transpose v0 Yr (invperm order)) = upd s n J).
+  { unfold np_transpose. rewrite dshape_tabulate. unfold Yr, np_reshapeF. rewrite dshape_tabulate.
+    rewrite Hsh. apply (pick_invperm_pick 0 order N); auto. }
+  cbn zeta. split; [exact Hshape|]. split; [apply wf_tabulate|].
+  intros i Hi.
+  assert (HLi : length i = N) by (apply inb_length in Hi; now rewrite HLs' in Hi).
+  rewrite (inb_split (upd s n J) n i) in Hi by (rewrite ?HLs'; auto).
+  rewrite nth_upd_same, remove_at_upd in Hi by exact Hn.
+  apply andb_true_iff in Hi as [Hx Hj]. apply Nat.ltb_lt in Hx. fold rest in Hj.
+  set (x := nth n i 0) in *. set (j := remove_at n i) in *.
+  assert (Hpi : forall k, pick 0 order (upd i n k) = k :: j).
+  { intros k. unfold order. rewrite <- (upd_length i n k) in HLi. rewrite <- HLi.
+    rewrite pick_ttm_order by (rewrite HLi; exact Hn).
+    rewrite upd_length in HLi.
+    rewrite nth_upd_same by (rewrite HLi; exact Hn). unfold j. now rewrite remove_at_upd. }
+  assert (Hpi0 : pick 0 order i = x :: j).
+  { unfold order. rewrite <- HLi. rewrite pick_ttm_order by (rewrite HLi; exact Hn). reflexivity. }
+  (* outer transpose *)
+  unfold np_transpose at 1. rewrite den_tabulate.
+  2:{ unfold Yr, np_reshapeF. rewrite dshape_tabulate, Hsh.
+      rewrite (pick_invperm_pick 0 order N) by auto.
+      rewrite (inb_split (upd s n J) n i) by (rewrite ?HLs'; auto).
+      rewrite nth_upd_same, remove_at_upd by exact Hn. fold rest. fold x. fold j. rewrite Hj.
+      apply Nat.ltb_lt in Hx. now rewrite Hx. }
+  rewrite (invperm_invperm order N Hp), Hpi0.
+  (* reshape of the product *)
+  assert (Wp : wf_dense prod) by apply wf_tabulate.
+  assert (Hdp : dshape prod = [J; sd]).
+  { unfold prod, matmul. rewrite dshape_tabulate. unfold Um, m2, np_reshapeF.
+    destruct tr; unfold of_matrix, of_matrixT; rewrite !dshape_tabulate; reflexivity. }
+  assert (Hin : inb (J :: rest) (x :: j) = true).
+  { cbn [inb]. rewrite Hj. apply Nat.ltb_lt in Hx. now rewrite Hx. }
+  pose proof (sub2ind_lt rest j Hj) as Hc. fold sd in Hc.
+  unfold Yr. rewrite den_reshapeF; auto.
+  2:{ rewrite Hdp, !size_cons. change (size []) with 1. unfold sd. lia. }
+  rewrite Hdp. cbn [sub2ind]. rewrite <- (sub2ind_2 J sd x (sub2ind rest j)).
+  rewrite ind2sub_sub2ind.
+  2:{ cbn [inb]. apply Nat.ltb_lt in Hx, Hc. now rewrite Hx, Hc. }
+  unfold prod. rewrite den_matmul.
+  2:{ unfold Um. destruct tr; unfold of_matrix, of_matrixT; rewrite dshape_tabulate; exact Hx. }
+  2:{ unfold m2, np_reshapeF. rewrite dshape_tabulate. exact Hc. }
+  assert (HUm : nth 1 (dshape Um) 0 = In).
+  { unfold Um. destruct tr; unfold of_matrix, of_matrixT; rewrite dshape_tabulate; reflexivity. }
+  rewrite HUm. unfold spec_ttm. fold s In x.
+  apply sum_n_ext. intros k Hk. f_equal.
+  - unfold Um. destruct tr; [now rewrite den_of_matrixT|now rewrite den_of_matrix].
+  - (* the permuted, reshaped data *)
+    assert (Wn : wf_dense newdata) by apply wf_tabulate.
+    assert (Hdn : dshape newdata = In :: rest).
+    { unfold newdata, np_transpose. rewrite dshape_tabulate. exact Hps. }
+    unfold m2. rewrite den_reshapeF; auto.
+    2:{ rewrite Hdn, !size_cons. change (size []) with 1. unfold sd. lia. }
+    2:{ cbn [inb]. apply Nat.ltb_lt in Hk, Hc. now rewrite Hk, Hc. }
+    rewrite Hdn, sub2ind_2.
+    assert (Hkj : inb (In :: rest) (k :: j) = true).
+    { cbn [inb]. rewrite Hj. apply Nat.ltb_lt in Hk. now rewrite Hk. }
+    change (Nat.add k (Nat.mul In (sub2ind rest j))) with (sub2ind (In :: rest) (k :: j)).
+    rewrite ind2sub_sub2ind by exact Hkj.
+    unfold newdata, np_transpose. fold s. rewrite Hps. rewrite den_tabulate by exact Hkj.
+    rewrite <- (Hpi k).
+    rewrite (pick_invperm_pick 0 order N) by (auto; now rewrite upd_length). reflexivity.
+Qed.
+
+(* ---------------------------------------------------------------- Khatri-Rao product, reverse=True *)
+
+Definition wf_cols (R : nat) (M : @matrix V) : Prop := Forall (fun r => length r = R) M.
+
+Lemma zipmul_length (a b : list V) R : length a = R -> length b = R -> length (zipmul vmul a b) = R.
+Proof. revert b R; induction a as [|x a IH]; intros [|y b] R Ha Hb; cbn in *; try lia. rewrite (IH b (length a)); lia. Qed.
+
+Lemma nth_zipmul : forall (a b : list V) r, r < length a -> r < length b ->
+  nth r (zipmul vmul a b) v0 = nth r a v0 * nth r b v0.
+Proof.
+  induction a as [|x a IH]; intros [|y b] r Ha Hb; cbn [length] in *; try lia.
+  destruct r as [|r]; [reflexivity|]. cbn [zipmul nth]. apply IH; lia.
+Qed.
+
+Lemma wf_cols_nth R M a : wf_cols R M -> a < length M -> length (nth a M []) = R.
+Proof. intros W Ha. unfold wf_cols in W. rewrite Forall_forall in W. apply W. now apply nth_In. Qed.
+
+Lemma kr2_rows (R : nat) M P : length (kr2 vmul M P) = Nat.mul (length M) (length P).
+Proof. unfold kr2. apply flat_map_length_uniform. intros p. now rewrite map_length. Qed.
+
+Lemma kr2_cols R M P : wf_cols R M -> wf_cols R P -> wf_cols R (kr2 vmul M P).
+Proof.
+  intros WM WP. unfold wf_cols, kr2 in *. rewrite Forall_forall in *. intros row Hrow.
+  apply in_flat_map in Hrow as (pr & Hpr & Hrow). apply in_map_iff in Hrow as (mr & <- & Hmr).
+  apply zipmul_length; auto.
+Qed.
+
+Lemma mget_kr2 R M P a b r : wf_cols R M -> wf_cols R P -> a < length M -> b < length P -> r < R ->
+  mget v0 (kr2 vmul M P) (Nat.add a (Nat.mul (length M) b)) r = mget v0 M a r * mget v0 P b r.
+Proof.
+  intros WM WP Ha Hb Hr. unfold mget, kr2.
+  rewrite (nth_flat_map_uniform _ (length M) [] []) by (auto; intros; now rewrite map_length).
+  change (@nil V) with (zipmul vmul (@nil V) (nth b P [])) at 1.
+  rewrite (map_nth (fun mr => zipmul vmul mr (nth b P [])) M [] a).
+  apply nth_zipmul; [rewrite (wf_cols_nth R M a)|rewrite (wf_cols_nth R P b)]; auto.
+Qed.
+
+Lemma kr_rev_wf R : forall Us, Us <> [] -> Forall (wf_cols R) Us ->
+  wf_cols R (kr_rev vmul Us) /\ length (kr_rev vmul Us) = size (map (@length _) Us).
+Proof.
+  induction Us as [|U Us IH]; intros Hne HW; [congruence|].
+  inversion HW as [|? ? HU HUs]; subst. destruct Us as [|U2 Us].
+  - cbn. split; auto. lia.
+  - destruct (IH ltac:(discriminate) HUs) as [IH1 IH2].
+    change (kr_rev vmul (U :: U2 :: Us)) with (kr2 vmul U (kr_rev vmul (U2 :: Us))).
+    split; [now apply kr2_cols|]. rewrite (kr2_rows R), IH2. reflexivity.
+Qed.
+
+Lemma mget_kr_rev R : forall Us j r, Us <> [] -> Forall (wf_cols R) Us ->
+  inb (map (@length _) Us) j = true -> r < R ->
+  mget v0 (kr_rev vmul Us) (sub2ind (map (@length _) Us) j) r = kprod v0 v1 vmul Us j r.
+Proof.
+  induction Us as [|U Us IH]; intros j r Hne HW Hj Hr; [congruence|].
+  inversion HW as [|? ? HU HUs]; subst.
+  destruct j as [|x j]; [discriminate|]. cbn [map inb] in Hj. apply andb_true_iff in Hj as [Hx Hj].
+  apply Nat.ltb_lt in Hx. destruct Us as [|U2 Us].
+  - destruct j; [|discriminate]. cbn [map sub2ind kr_rev kprod].
+    replace (Nat.add x (Nat.mul (length U) 0)) with x by lia. ring.
+  - change (kr_rev vmul (U :: U2 :: Us)) with (kr2 vmul U (kr_rev vmul (U2 :: Us))).
+    destruct (kr_rev_wf R (U2 :: Us) ltac:(discriminate) HUs) as [W2 L2].
+    cbn [map sub2ind]. change (length U2 :: map (@length _) Us) with (map (@length _) (U2 :: Us)).
+    rewrite (mget_kr2 R) by (auto; rewrite L2; now apply sub2ind_lt).
+    rewrite IH by (auto; discriminate). reflexivity.
+Qed.
+
+(* ---------------------------------------------------------------- tensor.mttkrp, branch n = 0 *)
+
+Theorem impl_mttkrp_dense_n0_correct (X : dense V) Us R :
+  wf_dense X -> 2 <= length (dshape X) -> length Us = length (dshape X) ->
+  Forall (wf_cols R) (skipn 1 Us) -> map (@length _) (skipn 1 Us) = skipn 1 (dshape X) ->
+  let Y := impl_mttkrp_dense v0 v1 vadd vmul X Us 0 R in
+  dshape Y = [nth 0 (dshape X) 0; R] /\ wf_dense Y /\
+  forall x r, x < nth 0 (dshape X) 0 -> r < R ->
+    den Y [x; r] = spec_mttkrp v0 v1 vadd vmul (den X) (dshape X) 0 (repeat v1 R) Us x r.
+Proof.
+  intros W HN HL HW Hrows. unfold impl_mttkrp_dense. cbn [Nat.eqb].
+  destruct X as [s data]. cbn [dshape] in *.
+  destruct s as [|d rest]; [cbn in HN; lia|]. destruct Us as [|U0 Ur]; [cbn in HL; lia|].
+  cbn [skipn nth firstn] in *. change (size []) with 1.
+  assert (Hne : Ur <> []) by (destruct Ur; [cbn in HL, HN; lia|discriminate]).
+  cbn zeta. split; [reflexivity|]. split; [apply wf_tabulate|].
+  intros x r Hx Hr.
+  rewrite den_matmul.
+  2:{ unfold np_reshapeF. now rewrite dshape_tabulate. }
+  2:{ unfold of_matrix. now rewrite dshape_tabulate. }
+  unfold np_reshapeF at 1. rewrite dshape_tabulate. cbn [nth].
+  unfold spec_mttkrp, remove_at. cbn [firstn skipn app].
+  unfold allsubs. rewrite sum_over_map. apply sum_n_ext. intros c Hc.
+  assert (Hxc : inb [d; size rest] [x; c] = true).
+  { cbn [inb]. apply Nat.ltb_lt in Hx, Hc. now rewrite Hx, Hc. }
+  assert (Hin : inb rest (ind2sub rest c) = true) by (now apply inb_ind2sub).
+  f_equal.
+  - unfold np_reshapeF. rewrite den_tabulate by exact Hxc. rewrite sub2ind_2.
+    unfold insert_at. cbn [firstn skipn app]. unfold den_dense. cbn [dshape ddata inb].
+    apply Nat.ltb_lt in Hx. rewrite Hx, Hin. cbn [andb sub2ind]. now rewrite sub2ind_ind2sub.
+  - rewrite den_of_matrix by auto.
+    rewrite <- (sub2ind_ind2sub rest c Hc) at 1. rewrite <- Hrows.
+    rewrite (mget_kr_rev R) by (auto; now rewrite Hrows).
+    rewrite nth_indep with (d' := v1) by (now rewrite repeat_length). rewrite nth_repeat. ring.
 Qed.
 
 End P.
